@@ -603,5 +603,5 @@ def frame_fit(fx, v):
                     'the re-read for the rest of the packet is dominated by header bytes + Remaining Length <= capacity (%s)%s' % (
                         cap[:70], '' if fit else ' — NOT: bounds on the Remaining Length found: %s (the header bytes already in the buffer are not accounted for)' % seen),
                     key='C19:R-PROGRESS:assemble_op:packet-fits-buffer', where='%s:%s' % (f.path_file(), l))
-    if n == 0:
+    if n == 0 and not v.violations:
         raise AnalysisBroken('assemble_op::on_read: no re-read after the Remaining Length is known was found')
